@@ -5,6 +5,7 @@
 #include <cstring>
 #include <string>
 #include <vector>
+#include <map>
 #include <sstream>
 #include <iostream>
 #include <unistd.h>
@@ -427,6 +428,13 @@ static std::string cmd_run(const std::vector<std::string>& a, bool verbose) {
 }
 
 // ---------------------------------------------------------------------------------------------
+// ---------------------------------------------------------------------------------------------
+// commands defined in harness/cmd_*.inc (one file per subsystem; each registers itself)
+typedef std::string (*extra_cmd_fn)(const std::vector<std::string>&);
+static std::map<std::string, extra_cmd_fn>& extra_cmds() { static std::map<std::string, extra_cmd_fn> m; return m; }
+struct RegisterCmd { RegisterCmd(const char* name, extra_cmd_fn f) { extra_cmds()[name] = f; } };
+#include "cmds_extra.h"
+
 static std::string dispatch(const std::string& line) {
     auto a = split(line);
     if (a.empty() || a[0].empty()) return "";
@@ -439,6 +447,7 @@ static std::string dispatch(const std::string& line) {
         if (a[0] == "EXEC") return cmd_exec(a);
         if (a[0] == "FLAGS") return cmd_flags(a);
         if (a[0] == "TCE") return cmd_tce(a);
+        { auto it = extra_cmds().find(a[0]); if (it != extra_cmds().end()) return it->second(a); }
         if (a[0] == "TXPARSE") return cmd_txparse(a);
         if (a[0] == "BTCC") return cmd_btcc(a);
         if (a[0] == "VALUE") return cmd_value(a);
